@@ -7,7 +7,9 @@ from replay import interleaved as rp
 LEVEL = "proof"
 # obligations that speak about side passes only belong to C05, checkpoint inference to C06
 NOT_MINE = [r"yield[23]:assert", r"loop2:iter-end", r"loop3:", r"_eval_loop", r"__init__:(ensures|post-induction|loop1)",
-            r"loop0:inv\d+:entry"]
+            r"loop0:inv\d+:entry",
+            # LINK[3] (sample_at_last_update == g_Sprev) only feeds the every_n_samples decision (C05) and resume (C06)
+            r"loop[01]:inv3:"]
 
 
 def run(res):
